@@ -418,6 +418,9 @@ def run(spec, out):
                 failpoint_step(rng, measured, conversions, Unit, Dimension, d, fresh, my_units, snapshot, diff, count, violation)
         if step % 10 == 9:
             sweep(f"step {step}")
+    if spec.get("force_failpoint_site") and spec.get("failpoints", True):
+        failpoint_step(rng, measured, conversions, Unit, Dimension, rng.choice(dims), fresh, my_units, snapshot, diff, count, violation,
+                       force=spec["force_failpoint_site"])
     sweep("end of history")
     if len(out["samples"]) < 3:
         out["samples"].append({"seed": spec["seed"], "steps": steps, "units_defined": len(my_units), "counts": {k: v for k, v in counts.items() if not k.startswith("failing_calls")}})
@@ -427,7 +430,7 @@ class Injected(Exception):
     pass
 
 
-def failpoint_step(rng, measured, conversions, Unit, Dimension, d, fresh, my_units, snapshot, diff, count, violation):
+def failpoint_step(rng, measured, conversions, Unit, Dimension, d, fresh, my_units, snapshot, diff, count, violation, force=None):
     """Make the callee raise on entry when it is entered from the named definition function
     (sys.monitoring PY_START); the definition call must leave every registry unchanged."""
     mon = sys.monitoring
@@ -447,6 +450,8 @@ def failpoint_step(rng, measured, conversions, Unit, Dimension, d, fresh, my_uni
         if not anon.names:
             sites.append(("Unit.derive->Unit.alias", "alias", lambda: Unit.derive(anon, fresh("zqn"), fresh("zqs"))))
     label, callee_name, call = rng.choice(sites)
+    if force:
+        label, callee_name, call = next(x for x in sites if x[0] == force)
     callee = {
         "translate": getattr(conversions.translate, "__wrapped__", conversions.translate),
         "equate": getattr(conversions.equate, "__wrapped__", conversions.equate),
